@@ -1407,6 +1407,9 @@ Proof.
   - intros l s. reflexivity.
 Qed.
 
+Lemma digest_label_tie : gen_digest_label_source_check = 1 /\ gen_digest_label_source_stored = 1.
+Proof. split; reflexivity. Qed.
+
 (* startup.rescan_env_vars, translated statement by statement (the loop is interpreted for a row that differs / does
    not differ): a row of an attached step counts as changed exactly when the current value differs *)
 Lemma env_rescan_rule_tie :
